@@ -544,7 +544,10 @@ def f4_probe(ctx):
 
 
 def replay(ctx, path):
-    r = json.load(open(path))
+    import replaylib
+    r = replaylib.load("C10", path)
+    if "op" not in r and "f4_op" not in r:
+        return replaylib.obligations("C10", run, r, path)
     vlib.c_build("asan", targets=["liblzma"])
     okh, log, exe = vlib.harness_build("c10", HARNESS)
     if not okh:
